@@ -9,7 +9,8 @@ Import ListNotations.
 Definition registered (ch : nat) (w : waker) (H : heap) : Prop :=
   ch_wk (gch ch H) = Some w /\ ch < length (chans H).
 Definition sub_ok (w : waker) (q : subreq) (H : heap) : Prop :=
-  match q with SQ _ false _ _ ch => registered ch w H | SL _ _ _ ch => registered ch w H | _ => True end.
+  match q with SQ _ false _ _ ch => registered ch w H | SL _ _ _ ch => registered ch w H
+  | SJ u => In w (tf_joinw (gtf u H)) /\ u < length (tfl H) | _ => True end.
 Definition woken_of (w : waker) (H : heap) : Prop :=
   match w with WCmd _ _ g => getd false g (woken H) = true | WExec _ => True end.
 
@@ -84,9 +85,38 @@ Proof.
       * apply registered_note, registered_chan_drop_rx, R.
     + intros E R; inversion E; subst. apply registered_chan_drop_rx, R.
 Qed.
+Definition joined (u : nat) (w : waker) (H : heap) : Prop := In w (tf_joinw (gtf u H)) /\ u < length (tfl H).
+Lemma joined_same_tfl u w H H' : tfl H' = tfl H -> joined u w H -> joined u w H'.
+Proof. unfold joined, gtf. intros ->. auto. Qed.
+Lemma registered_utf ch w u f H : registered ch w H -> registered ch w (utf u f H).
+Proof. apply registered_same_chans. reflexivity. Qed.
+Lemma joined_utf_app u0 w u w' H :
+  joined u0 w H -> joined u0 w (utf u (fun tf => mkTF (tf_fin tf) (tf_abort tf) (tf_alive tf) (tf_joinw tf ++ [w'])) H).
+Proof.
+  intros (I & L). unfold joined, gtf, utf; simpl. split.
+  - destruct (Nat.eq_dec u u0) as [->|Hne].
+    + rewrite getd_updd_same. simpl. apply in_or_app. left. exact I.
+    + rewrite getd_updd_other by exact Hne. exact I.
+  - pose proof (length_updd tf0 u (fun tf => mkTF (tf_fin tf) (tf_abort tf) (tf_alive tf) (tf_joinw tf ++ [w'])) (tfl H)). lia.
+Qed.
+Lemma joined_utf_new u w H :
+  joined u w (utf u (fun tf => mkTF (tf_fin tf) (tf_abort tf) (tf_alive tf) (tf_joinw tf ++ [w])) H).
+Proof.
+  unfold joined, gtf, utf; simpl. split.
+  - rewrite getd_updd_same. simpl. apply in_or_app. right. left. reflexivity.
+  - apply lt_length_updd.
+Qed.
+Lemma req_poll_tfl c w sent dead tg v ch H o s' d' H' : req_poll c w sent dead tg v ch H = (o, s', d', H') -> tfl H' = tfl H.
+Proof.
+  unfold req_poll. destruct dead; [intros E; inversion E; reflexivity|].
+  destruct (negb sent); [intros E; inversion E; reflexivity|].
+  destruct (ch_buf (gch ch H)); [|intros E; inversion E; reflexivity].
+  destruct (ch_tx (gch ch H)); intros E; inversion E; reflexivity.
+Qed.
+
 Lemma sub_poll_ok c w q H q' H' : sub_poll c w q H = (q', H') -> sub_ok w q' H'.
 Proof.
-  unfold sub_poll. destruct q as [sent dead tg v ch|m|sent tg v ch].
+  unfold sub_poll. destruct q as [sent dead tg v ch|m|sent tg v ch|u].
   - destruct (req_poll c w sent dead tg v ch H) as [[[o s'] d'] H1] eqn:E1.
     destruct o; intros E; inversion E; subst; [exact I|].
     unfold sub_ok. destruct d'; [exact I|]. eapply req_poll_registers; eauto.
@@ -94,28 +124,42 @@ Proof.
   - match goal with |- context[ch_buf (gch ch ?Hx)] => destruct (ch_buf (gch ch Hx)) end; intros E; inversion E; subst.
     + unfold sub_ok. apply registered_chan_reg.
     + exact I.
+  - destruct (tf_fin (gtf u H)); [intros E; inversion E; subst; exact I|].
+    destruct (tf_alive (gtf u H)); intros E; inversion E; subst; [|exact I].
+    unfold sub_ok. apply joined_utf_new.
 Qed.
 Lemma sub_ok_keep w q0 H H' :
-  (forall ch0, registered ch0 w H -> registered ch0 w H') -> sub_ok w q0 H -> sub_ok w q0 H'.
+  (forall ch0, registered ch0 w H -> registered ch0 w H') ->
+  (forall u0, joined u0 w H -> joined u0 w H') -> sub_ok w q0 H -> sub_ok w q0 H'.
 Proof.
-  intros K. unfold sub_ok. destruct q0 as [s0 d0 t0 v0 c0|m0|s0 t0 v0 c0].
+  intros K KJ. unfold sub_ok. destruct q0 as [s0 d0 t0 v0 c0|m0|s0 t0 v0 c0|u0].
   - destruct d0; [auto | apply K].
   - auto.
   - apply K.
+  - apply KJ.
 Qed.
 Lemma sub_poll_keeps c w q H q' H' q0 : sub_poll c w q H = (q', H') -> sub_ok w q0 H -> sub_ok w q0 H'.
 Proof.
-  unfold sub_poll. destruct q as [sent dead tg v ch|m|sent tg v ch].
+  unfold sub_poll. destruct q as [sent dead tg v ch|m|sent tg v ch|u].
   - destruct (req_poll c w sent dead tg v ch H) as [[[o s'] d'] H1] eqn:E1.
     intros E. assert (H' = H1) by (destruct o; inversion E; reflexivity). subst H1.
-    apply sub_ok_keep. intros ch0. eapply req_poll_keeps; eauto.
+    apply sub_ok_keep; [intros ch0; eapply req_poll_keeps; eauto | intros u0; apply joined_same_tfl; eapply req_poll_tfl; eauto].
   - intros E; inversion E; subst; auto.
   - set (H1 := if sent then H else push_hout (mkEff tg v [] (RLegacy ch)) H).
     assert (K1 : forall ch0, registered ch0 w H -> registered ch0 w H1)
       by (intros ch0 R; subst H1; destruct sent; [exact R | apply registered_push_hout, R]).
-    destruct (ch_buf (gch ch H1)); intros E; inversion E; subst; apply sub_ok_keep; intros ch0 R.
-    + apply registered_chan_reg_other, K1, R.
-    + apply registered_chan_drop_rx, K1, R.
+    assert (T1 : tfl H1 = tfl H) by (subst H1; destruct sent; reflexivity).
+    destruct (ch_buf (gch ch H1)); intros E; inversion E; subst; apply sub_ok_keep.
+    + intros ch0 R. apply registered_chan_reg_other, K1, R.
+    + intros u0. apply joined_same_tfl. exact T1.
+    + intros ch0 R. apply registered_chan_drop_rx, K1, R.
+    + intros u0. apply joined_same_tfl. exact T1.
+  - destruct (tf_fin (gtf u H)); [intros E; inversion E; subst; auto|].
+    destruct (tf_alive (gtf u H)); intros E; inversion E; subst; apply sub_ok_keep.
+    + intros ch0. apply registered_utf.
+    + intros u0. apply joined_utf_app.
+    + intros ch0. apply registered_note.
+    + intros u0. apply joined_same_tfl. reflexivity.
 Qed.
 
 (* ---------- woken flags only ever go from false to true ---------- *)
@@ -187,6 +231,7 @@ Proof.
     + apply IH in E; exact E.
     + destruct (new_chan H) as [ch1 H1]. destruct (new_chan H1) as [ch2 H2]. apply IH in E; exact E.
     + destruct (new_chan H) as [ch1 H1]. destruct (new_chan H1) as [ch2 H2]. apply IH in E; exact E.
+    + destruct (new_chan H) as [ch H1]. apply IH in E; exact E.
     + destruct (new_chan H) as [ch1 H1]. destruct (new_chan H1) as [ch2 H2]. apply IH in E; exact E.
     + destruct (new_cmd _ _ _ _ _ _) as [cid H1]. apply IH in E; exact E.
   - (* LReq *)
@@ -228,7 +273,7 @@ Proof.
   - (* LRace *)
     destruct (sub_poll c w qa H) as [a' H1] eqn:E1.
     pose proof (sub_poll_ok _ _ _ _ _ _ E1) as Oa.
-    destruct a' as [sent dead tg v ch|m|sent tg v ch]; [|apply IH in E; exact E|].
+    destruct a' as [sent dead tg v ch|m|sent tg v ch|u]; [|apply IH in E; exact E| |].
     + destruct (sub_poll c w qb H1) as [b' H2] eqn:E2.
       pose proof (sub_poll_keeps _ _ _ _ _ _ (SQ sent dead tg v ch) E2 Oa) as Oa2.
       pose proof (sub_poll_ok _ _ _ _ _ _ E2) as Ob.
@@ -236,6 +281,11 @@ Proof.
       apply IH in E; exact E.
     + destruct (sub_poll c w qb H1) as [b' H2] eqn:E2.
       pose proof (sub_poll_keeps _ _ _ _ _ _ (SL sent tg v ch) E2 Oa) as Oa2.
+      pose proof (sub_poll_ok _ _ _ _ _ _ E2) as Ob.
+      destruct b'; try (inversion E; subst; unfold post; simpl; split; assumption).
+      apply IH in E; exact E.
+    + destruct (sub_poll c w qb H1) as [b' H2] eqn:E2.
+      pose proof (sub_poll_keeps _ _ _ _ _ _ (SJ u) E2 Oa) as Oa2.
       pose proof (sub_poll_ok _ _ _ _ _ _ E2) as Ob.
       destruct b'; try (inversion E; subst; unfold post; simpl; split; assumption).
       apply IH in E; exact E.
@@ -263,7 +313,7 @@ Proof.
   - apply existsb_exists. exists (WCmd c s g). split; [exact I|]. simpl. apply Nat.eqb_refl.
 Qed.
 (* what the task may be blocked on when it is evicted *)
-Definition closed_sub (q : subreq) : Prop := match q with SQ _ dead _ _ _ => dead = true | SDone _ => True | SL sent _ _ _ => False end.
+Definition closed_sub (q : subreq) : Prop := match q with SQ _ dead _ _ _ => dead = true | SDone _ => True | SL sent _ _ _ => False | SJ _ => False end.
 Definition evictable (fs' : fstate) : Prop :=
   match f_leaf fs' with
   | LReq _ dead _ _ _ _ _ => dead = true
@@ -327,17 +377,21 @@ Proof.
     + unfold woken_of, w in P. assert (EW' : getd false g (woken H2) = false) by exact EW. rewrite P in EW'. discriminate.
     + exfalso. rewrite (holds_ucmd_of_chan g cid _ H2 lch w P Gw) in EHo'. discriminate.
     + destruct P as (Pa & Pb). split.
-      * destruct qa as [s d tg v ch|m|s tg v ch]; [|exact I|exfalso; rewrite (holds_ucmd_of_chan g cid _ H2 ch w Pa Gw) in EHo'; discriminate].
+      * destruct qa as [s d tg v ch|m|s tg v ch|u0]; [|exact I|exfalso; rewrite (holds_ucmd_of_chan g cid _ H2 ch w Pa Gw) in EHo'; discriminate
+          |exfalso; destruct Pa as (Ij & Lj); rewrite (holds_ucmd_of_joinw g cid _ H2 u0 w Ij Lj Gw) in EHo'; discriminate].
         simpl. destruct d; [reflexivity|]. exfalso.
         rewrite (holds_ucmd_of_chan g cid _ H2 ch w Pa Gw) in EHo'. discriminate.
-      * destruct qb as [s d tg v ch|m|s tg v ch]; [|exact I|exfalso; rewrite (holds_ucmd_of_chan g cid _ H2 ch w Pb Gw) in EHo'; discriminate].
+      * destruct qb as [s d tg v ch|m|s tg v ch|u0]; [|exact I|exfalso; rewrite (holds_ucmd_of_chan g cid _ H2 ch w Pb Gw) in EHo'; discriminate
+          |exfalso; destruct Pb as (Ij & Lj); rewrite (holds_ucmd_of_joinw g cid _ H2 u0 w Ij Lj Gw) in EHo'; discriminate].
         simpl. destruct d; [reflexivity|]. exfalso.
         rewrite (holds_ucmd_of_chan g cid _ H2 ch w Pb Gw) in EHo'. discriminate.
     + destruct P as (Pa & Pb). split.
-      * destruct qa as [s d tg v ch|m|s tg v ch]; [|exact I|exfalso; rewrite (holds_ucmd_of_chan g cid _ H2 ch w Pa Gw) in EHo'; discriminate].
+      * destruct qa as [s d tg v ch|m|s tg v ch|u0]; [|exact I|exfalso; rewrite (holds_ucmd_of_chan g cid _ H2 ch w Pa Gw) in EHo'; discriminate
+          |exfalso; destruct Pa as (Ij & Lj); rewrite (holds_ucmd_of_joinw g cid _ H2 u0 w Ij Lj Gw) in EHo'; discriminate].
         simpl. destruct d; [reflexivity|]. exfalso.
         rewrite (holds_ucmd_of_chan g cid _ H2 ch w Pa Gw) in EHo'. discriminate.
-      * destruct qb as [s d tg v ch|m|s tg v ch]; [|exact I|exfalso; rewrite (holds_ucmd_of_chan g cid _ H2 ch w Pb Gw) in EHo'; discriminate].
+      * destruct qb as [s d tg v ch|m|s tg v ch|u0]; [|exact I|exfalso; rewrite (holds_ucmd_of_chan g cid _ H2 ch w Pb Gw) in EHo'; discriminate
+          |exfalso; destruct Pb as (Ij & Lj); rewrite (holds_ucmd_of_joinw g cid _ H2 u0 w Ij Lj Gw) in EHo'; discriminate].
         simpl. destruct d; [reflexivity|]. exfalso.
         rewrite (holds_ucmd_of_chan g cid _ H2 ch w Pb Gw) in EHo'. discriminate.
 Qed.
